@@ -11,7 +11,7 @@ def wrapperOf : String → Option Wrapper
 def toolOf : String → Option Tool
   | "ok" => some .ok | "reorder" => some .reorder | "garbage_empty" => some .garbageEmpty
   | "garbage_ragged" => some .garbageRagged | "garbage_missing" => some .garbageMissing
-  | "garbage_length" => some .garbageLength | "garbage_swap" => some .garbageSwap
+  | "garbage_length" => some .garbageLength | "garbage_swap" => some .garbageSwap | "garbage_short" => some .garbageShort
   | "dup_records" => some .dupRecords | "garbage_extra" => some .garbageExtra | "garbage_header" => some .garbageHeader | "bigout" => some .bigout
   | "garbage_tree" => some .garbageTree | "exit3" => some .exit3 | "hang" => some .hang
   | "sigkill" => some .sigkill | "hang_ignore_term" => some .hangIgnoreTerm
